@@ -1,9 +1,465 @@
-//! stub
-use super::Ctx;
-use crate::engine::evidence::{Case, Report, Verdict};
-pub fn run(_ctx: &Ctx, _rep: &mut Report) {
-    crate::engine::monitor::machinery_fail("not implemented");
+//! C15 - card bit-sets behave as sets: union, subset, count, validity, ordered peel.
+//!
+//! E2 (explicit-state graph, real `fold_in` / `peel` as the transition function):
+//!   universe U = 10 card bits spread over all suits (0, 1, 12, 13, 25, 26, 38, 39, 50, 51) + 2 overflow bits
+//!   (52, 63); states = all 4,096 subsets; actions = fold_in(single) x 12, fold_in(pair) x 66, peel; the invariant
+//!   (membership for every sub-set of U, count, single-card test, validity) is evaluated in every state against
+//!   a BTreeSet model and the step relation on every edge. The graph is closed, so every fold/peel history of any
+//!   length over U is covered.
+//! E1 families over all 64 bits: every set with <= 4 members and every complement, peeled to exhaustion (listing =
+//!   members in deck order, then blank forever, overflow bits untouched), with count / validity / membership;
+//!   from_two..from_seven on all tuples over S53 (sizes 2..4) and all multisets (5..7; thorough adds rotations),
+//!   plus tuples over an alphabet with non-card words; from_index on token sequences.
+use super::hands::AnyHand;
+use super::{confirm, sample_json, Ctx};
+use crate::engine::enumerate::{multisets_first, par_parts, tuple_decode};
+use crate::engine::evidence::{profile_name, Acc, Case, Report, Verdict, Violation};
+use crate::engine::explore::Bfs;
+use crate::engine::monitor::{self, guard};
+use crate::oracle::cards::{show_words, sigma53, word_to_card, Card};
+use crate::oracle::misc::{parse_token, tokens};
+use ckc_rs::cards::binary_card::{BinaryCard, BC64};
+use ckc_rs::cards::five::Five;
+use ckc_rs::cards::four::Four;
+use ckc_rs::cards::seven::Seven;
+use ckc_rs::cards::six::Six;
+use ckc_rs::cards::three::Three;
+use ckc_rs::cards::two::Two;
+use std::collections::BTreeSet;
+use std::time::Instant;
+
+pub const UNIVERSE: [u8; 12] = [0, 1, 12, 13, 25, 26, 38, 39, 50, 51, 52, 63];
+
+#[derive(Clone, Debug, PartialEq, Eq, Hash)]
+struct St {
+    real: u64,
+    model: BTreeSet<u8>,
 }
-pub fn judge(_case: &Case) -> Verdict {
-    Verdict::NotJudged("not implemented".into())
+
+#[derive(Clone, Debug)]
+enum Act {
+    Fold(u64),
+    Peel,
+}
+
+fn mask_of(m: &BTreeSet<u8>) -> u64 {
+    m.iter().fold(0u64, |a, b| a | 1u64 << b)
+}
+fn bits_of(x: u64) -> BTreeSet<u8> {
+    (0..64u8).filter(|b| x >> b & 1 == 1).collect()
+}
+
+/// the state invariant against the model; `probes` are the sub-sets membership is asked about
+fn invariant(real: u64, model: &BTreeSet<u8>, probes: &[u64]) -> Result<(), String> {
+    if real != mask_of(model) {
+        return Err(format!("set-content: real {:#x} but the model holds {:?}", real, model));
+    }
+    let r = guard(|| {
+        let n = real.number_of_cards();
+        let single = real.is_single_card();
+        let valid = real.is_valid();
+        let mut bad_probe = None;
+        for p in probes {
+            let exp = bits_of(*p).is_subset(model);
+            if real.has(*p) != exp {
+                bad_probe = Some((*p, exp));
+                break;
+            }
+        }
+        (n, single, valid, bad_probe)
+    });
+    match r {
+        Err(p) => Err(format!("panic: {}", p)),
+        Ok((n, single, valid, bad_probe)) => {
+            if n as usize != model.len() {
+                return Err(format!("number_of_cards: {} for a set of {} members", n, model.len()));
+            }
+            if single != (model.len() == 1) {
+                return Err(format!("is_single_card: {} for a set of {} members", single, model.len()));
+            }
+            let exp_valid = !model.is_empty() && model.iter().all(|b| *b < 52);
+            if valid != exp_valid {
+                return Err(format!("is_valid: {} for {:?} (non-empty and no bit above the 52 card bits: {})", valid, model, exp_valid));
+            }
+            if let Some((p, exp)) = bad_probe {
+                return Err(format!("has({:#x}): expected {} (subset test) on {:?}", p, exp, model));
+            }
+            Ok(())
+        }
+    }
+}
+
+fn step(s: &St, a: &Act) -> Result<St, String> {
+    match a {
+        Act::Fold(x) => {
+            let real = guard(|| s.real.fold_in(*x)).map_err(|p| format!("panic in fold_in: {}", p))?;
+            let mut model = s.model.clone();
+            model.extend(bits_of(*x));
+            if real != mask_of(&model) {
+                return Err(format!("fold_in-is-not-union: {:#x} fold_in {:#x} gave {:#x}, union is {:#x}", s.real, x, real, mask_of(&model)));
+            }
+            Ok(St { real, model })
+        }
+        Act::Peel => {
+            let mut real = s.real;
+            let got = guard(|| real.peel()).map_err(|p| format!("panic in peel: {}", p))?;
+            let mut model = s.model.clone();
+            let top = model.iter().copied().filter(|b| *b < 52).max();
+            let exp = match top {
+                Some(b) => {
+                    model.remove(&b);
+                    1u64 << b
+                }
+                None => 0,
+            };
+            if got != exp {
+                return Err(format!("peel-returns-wrong-card: peel of {:?} returned {:#x}, the highest remaining card in deck order is {:#x}", s.model, got, exp));
+            }
+            if real != mask_of(&model) {
+                return Err(format!("peel-leaves-wrong-set: after peeling {:?} the set is {:#x}, expected {:#x}", s.model, real, mask_of(&model)));
+            }
+            Ok(St { real, model })
+        }
+    }
+}
+
+fn act_code(a: &Act) -> u64 {
+    match a {
+        Act::Peel => u64::MAX,
+        Act::Fold(x) => *x,
+    }
+}
+fn act_label(a: &Act) -> String {
+    match a {
+        Act::Peel => "peel".into(),
+        Act::Fold(x) => format!("fold_in({:#x})", x),
+    }
+}
+
+fn peel_all(set: u64) -> Result<(), (String, String, String)> {
+    let model = bits_of(set);
+    let cards: Vec<u8> = model.iter().copied().filter(|b| *b < 52).rev().collect(); // deck order = highest bit first
+    let overflow: u64 = set & !((1u64 << 52) - 1);
+    let r = guard(|| {
+        let mut s = set;
+        let mut listed = Vec::new();
+        for _ in 0..cards.len() + 2 {
+            listed.push(s.peel());
+        }
+        (listed, s, set.number_of_cards(), set.is_valid(), set.is_single_card())
+    });
+    let (listed, rest, n, valid, single) = match r {
+        Err(p) => return Err(("panic".into(), "a listing".into(), format!("panic: {}", p))),
+        Ok(x) => x,
+    };
+    let mut exp: Vec<u64> = cards.iter().map(|b| 1u64 << b).collect();
+    exp.push(0);
+    exp.push(0);
+    if listed != exp {
+        return Err(("peel-sequence-not-deck-order".into(), format!("{:x?} for set {:#x}", exp, set), format!("{:x?}", listed)));
+    }
+    if rest != overflow {
+        return Err(("peel-exhaustion-changes-non-card-bits".into(), format!("{:#x} left", overflow), format!("{:#x}", rest)));
+    }
+    if n as usize != model.len() || single != (model.len() == 1) {
+        return Err(("count".into(), format!("{} members", model.len()), format!("number_of_cards {} is_single_card {}", n, single)));
+    }
+    let ev = set != 0 && overflow == 0;
+    if valid != ev {
+        return Err(("is_valid".into(), format!("{} for {:#x}", ev, set), format!("{}", valid)));
+    }
+    Ok(())
+}
+
+fn from_hand(w: &[u32]) -> u64 {
+    match w.len() {
+        2 => BinaryCard::from_two(Two::from([w[0], w[1]])),
+        3 => BinaryCard::from_three(Three::from([w[0], w[1], w[2]])),
+        4 => BinaryCard::from_four(Four::from([w[0], w[1], w[2], w[3]])),
+        5 => BinaryCard::from_five(Five::from([w[0], w[1], w[2], w[3], w[4]])),
+        6 => BinaryCard::from_six(Six::from([w[0], w[1], w[2], w[3], w[4], w[5]])),
+        _ => BinaryCard::from_seven(Seven::from([w[0], w[1], w[2], w[3], w[4], w[5], w[6]])),
+    }
+}
+fn model_from_hand(w: &[u32]) -> u64 {
+    w.iter().filter_map(|x| word_to_card(*x)).fold(0u64, |m, c| m | c.bit())
+}
+
+/// Case kinds: "graph" [action codes from the empty set: a mask = fold_in(mask), u64::MAX = peel];
+/// "peel_all" [set]; "from_hand" [words]; "from_index" (text).
+pub fn judge(case: &Case) -> Verdict {
+    match case.kind.as_str() {
+        "graph" => {
+            let probes: Vec<u64> = (0..4096u64).map(subset_of_universe).collect();
+            let mut s = St { real: 0, model: BTreeSet::new() };
+            for (i, code) in case.words.iter().enumerate() {
+                if let Err(e) = invariant(s.real, &s.model, &probes) {
+                    return Verdict::Violated { class: format!("graph:{}", e.split(':').next().unwrap_or("invariant")), expected: "the set invariant in every state".into(), observed: format!("before action {}: {}", i, e) };
+                }
+                let a = if *code == u64::MAX { Act::Peel } else { Act::Fold(*code) };
+                match step(&s, &a) {
+                    Ok(n) => s = n,
+                    Err(e) => return Verdict::Violated { class: format!("graph:{}", e.split(':').next().unwrap_or("step")), expected: format!("{} behaves as on the model", act_label(&a)), observed: format!("action {}: {}", i, e) },
+                }
+            }
+            match invariant(s.real, &s.model, &probes) {
+                Ok(()) => Verdict::Holds,
+                Err(e) => Verdict::Violated { class: format!("graph:{}", e.split(':').next().unwrap_or("invariant")), expected: "the set invariant in every state".into(), observed: format!("in the final state: {}", e) },
+            }
+        }
+        "peel_all" => match peel_all(case.words.first().copied().unwrap_or(0)) {
+            Ok(()) => Verdict::Holds,
+            Err((c, e, o)) => Verdict::Violated { class: format!("peel_all:{}", c), expected: e, observed: o },
+        },
+        "from_hand" => {
+            let w = case.w32s();
+            if !(2..=7).contains(&w.len()) {
+                return Verdict::NotJudged("2..7 words".into());
+            }
+            let exp = model_from_hand(&w);
+            match guard(|| from_hand(&w)) {
+                Err(p) => Verdict::Violated { class: "panic:from_hand".into(), expected: format!("{:#x}", exp), observed: format!("panic: {}", p) },
+                Ok(b) if b != exp => Verdict::Violated { class: format!("from_{}:not-the-set-of-distinct-real-cards", AnyHand::size_name(w.len())), expected: format!("{:#x} for [{}]", exp, show_words(&w)), observed: format!("{:#x}", b) },
+                Ok(_) => Verdict::Holds,
+            }
+        }
+        "from_index" => {
+            let s = match &case.text {
+                Some(s) => s.clone(),
+                None => return Verdict::NotJudged("no text".into()),
+            };
+            let exp = tokens(&s).iter().filter_map(|t| word_to_card(parse_token(t))).fold(0u64, |m, c| m | c.bit());
+            match guard(|| BinaryCard::from_index(&s)) {
+                Err(p) => Verdict::Violated { class: "panic:from_index".into(), expected: format!("{:#x}", exp), observed: format!("panic: {}", p) },
+                Ok(b) if b != exp => Verdict::Violated { class: "from_index:not-the-set-of-card-tokens".into(), expected: format!("{:#x} for {:?}", exp, s), observed: format!("{:#x}", b) },
+                Ok(_) => Verdict::Holds,
+            }
+        }
+        _ => Verdict::NotJudged("unknown kind".into()),
+    }
+}
+
+fn subset_of_universe(code: u64) -> u64 {
+    (0..12).filter(|i| code >> i & 1 == 1).fold(0u64, |m, i| m | 1u64 << UNIVERSE[i])
+}
+
+fn check_from_hand(acc: &mut Acc, w: &[u32]) {
+    acc.cases += 1;
+    acc.calls += 1;
+    let exp = model_from_hand(w);
+    if (exp.count_ones() as usize) < w.len() {
+        acc.nontrivial += 1; // a blank, a non-card word or a repeated card must be dropped / merged
+    }
+    if !matches!(guard(|| from_hand(w)), Ok(b) if b == exp) {
+        match confirm(judge, Case::w32("from_hand", w)) {
+            Some(v) => acc.violate(v),
+            None => monitor::machinery_fail("C15 from_hand mismatch not reproduced"),
+        }
+    }
+}
+
+pub fn run(ctx: &Ctx, rep: &mut Report) {
+    let thorough = ctx.tier.thorough();
+    // E2
+    {
+        let t0 = Instant::now();
+        let probes: Vec<u64> = (0..4096u64).map(subset_of_universe).collect();
+        let mut actions: Vec<Act> = Vec::new();
+        for i in 0..12 {
+            actions.push(Act::Fold(1u64 << UNIVERSE[i]));
+        }
+        for i in 0..12 {
+            for j in i + 1..12 {
+                actions.push(Act::Fold(1u64 << UNIVERSE[i] | 1u64 << UNIVERSE[j]));
+            }
+        }
+        actions.push(Act::Peel);
+        let full = subset_of_universe(4095);
+        let inits = vec![(St { real: 0, model: BTreeSet::new() }, "empty set".to_string()), (St { real: full, model: bits_of(full) }, "all of U".to_string())];
+        let ex = Bfs { inits, actions: &actions, step: &step, invariant: &|s: &St| invariant(s.real, &s.model, &probes), label: &act_label, max_states: 4096 }.run();
+        let mut acc = Acc::new(1);
+        acc.cases = ex.states;
+        acc.calls = ex.transitions + ex.states * (probes.len() as u64 + 3);
+        acc.nontrivial = ex.states.saturating_sub(1);
+        rep.hist_add("graph:states", ex.states);
+        rep.hist_add("graph:transitions", ex.transitions);
+        rep.hist_add("graph:max_depth", ex.max_depth as u64);
+        rep.hist_add("graph:actions", actions.len() as u64);
+        rep.hist_add("graph:membership_probes_per_state", probes.len() as u64);
+        if let Some((trace, why)) = &ex.violation {
+            // rebuild the replayable action list from the trace labels
+            let codes: Vec<u64> = trace.iter().skip(1).map(|l| actions.iter().find(|a| act_label(a) == *l).map(act_code).unwrap_or(0)).collect();
+            let from_full = trace.first().map(|t| t.contains("all of U")).unwrap_or(false);
+            let mut codes_full = codes.clone();
+            if from_full {
+                codes_full.insert(0, full);
+            }
+            let case = Case::new("graph", &codes_full);
+            match confirm(judge, case.clone()) {
+                Some(mut v) => {
+                    v.trace = trace.clone();
+                    acc.violate(v);
+                }
+                None => acc.violate(Violation { class: "graph:unreplayed".into(), case, expected: "invariant".into(), observed: why.clone(), profile: profile_name().into(), trace: trace.clone() }),
+            }
+        } else {
+            rep.guard("closed graph: exactly the 4,096 subsets of U were reached", ex.states == 4096, format!("{} states", ex.states));
+            rep.guard("every state has all 79 outgoing edges executed", ex.transitions == 4096 * 79, format!("{} transitions", ex.transitions));
+        }
+        rep.sample(sample_json("graph", "empty -> fold_in(bit 51) -> fold_in(bits 0,63) -> peel", &format!("{:?}", {
+            let mut s = 0u64.fold_in(1 << 51).fold_in(1 | 1 << 63);
+            let c = s.peel();
+            (format!("{:#x}", c), format!("{:#x}", s))
+        })));
+        rep.add_space("E2: state graph over 12 bits (4,096 sets) x 79 actions, invariant with 4,096 membership probes per state", &acc, t0, "breadth-first until the frontier is empty; real fold_in / peel as transitions");
+    }
+    // E1: small sets and complements over all 64 bits, peeled to exhaustion
+    {
+        let t0 = Instant::now();
+        let kind = monitor::kind_id("peel_all");
+        let accs = par_parts(64, |i| {
+            let mut acc = Acc::new(1);
+            let mut go = |set: u64, acc: &mut Acc| {
+                for s in [set, !set] {
+                    monitor::beat(kind, &[s]);
+                    acc.cases += 1;
+                    acc.calls += (s & ((1u64 << 52) - 1)).count_ones() as u64 + 5;
+                    if s >> 52 != 0 || s == 0 {
+                        acc.nontrivial += 1;
+                    }
+                    if peel_all(s).is_err() {
+                        match confirm(judge, Case::new("peel_all", &[s])) {
+                            Some(v) => acc.violate(v),
+                            None => monitor::machinery_fail("C15 peel_all mismatch not reproduced"),
+                        }
+                    }
+                }
+            };
+            if i == 0 {
+                go(0, &mut acc);
+            }
+            go(1u64 << i, &mut acc);
+            for j in 0..i {
+                go(1u64 << i | 1u64 << j, &mut acc);
+                for k in 0..j {
+                    go(1u64 << i | 1u64 << j | 1u64 << k, &mut acc);
+                    for l in 0..k {
+                        go(1u64 << i | 1u64 << j | 1u64 << k | 1u64 << l, &mut acc);
+                    }
+                }
+            }
+            acc
+        });
+        let acc = Acc::merged(accs);
+        rep.guard("2 x 679,121 sets", acc.cases == 2 * 679_121, format!("{}", acc.cases));
+        rep.add_space("every set with <= 4 members over all 64 bits and every complement, peeled to exhaustion", &acc, t0, "listing = members in deck order, then blank twice, non-card bits untouched; count, single, validity");
+    }
+    // from_two .. from_seven
+    let kind = monitor::kind_id("from_hand");
+    for n in 2..=4usize {
+        let t0 = Instant::now();
+        let total = 53u64.pow(n as u32);
+        let accs = par_parts(53, |p| {
+            let mut acc = Acc::new(1);
+            let mut idx = vec![0usize; n];
+            let mut w = vec![0u32; n];
+            monitor::beat(kind, &[n as u64, p as u64]);
+            for t in (total * p as u64 / 53)..(total * (p as u64 + 1) / 53) {
+                tuple_decode(t, 53, &mut idx);
+                for i in 0..n {
+                    w[i] = sigma53(idx[i]);
+                }
+                check_from_hand(&mut acc, &w);
+            }
+            acc
+        });
+        let acc = Acc::merged(accs);
+        rep.add_space(&format!("from_{}: all 53^{} tuples over S53", AnyHand::size_name(n), n), &acc, t0, "");
+    }
+    for n in 5..=7usize {
+        let t0 = Instant::now();
+        let rots: Vec<usize> = if thorough { (0..n).collect() } else { vec![0, n / 2] };
+        let accs = par_parts(53, |first| {
+            let mut acc = Acc::new(1);
+            let mut w = vec![0u32; n];
+            monitor::beat(kind, &[n as u64, first as u64]);
+            multisets_first(53, n, first, &mut |idx| {
+                for b in &rots {
+                    for i in 0..n {
+                        w[(i + b) % n] = sigma53(idx[i]);
+                    }
+                    check_from_hand(&mut acc, &w);
+                }
+                if idx[n - 1] == 52 && idx[n - 2] == 52 {
+                    monitor::tick();
+                }
+            });
+            acc
+        });
+        let acc = Acc::merged(accs);
+        rep.add_space(&format!("from_{}: all {}-slot multisets over S53 x {} rotation(s)", AnyHand::size_name(n), n, rots.len()), &acc, t0, "with repetition and blanks");
+    }
+    {
+        // non-card words in the slots contribute nothing
+        let t0 = Instant::now();
+        let a = Card::new(12, 3).word();
+        let b = Card::new(0, 0).word();
+        let al = [a, b, 0, a | (1 << 29), a ^ 1, u32::MAX, 23];
+        let mut acc = Acc::new(1);
+        for n in 2..=7usize {
+            let total = 7u64.pow(n as u32);
+            let mut idx = vec![0usize; n];
+            let mut w = vec![0u32; n];
+            for t in 0..total {
+                tuple_decode(t, 7, &mut idx);
+                for i in 0..n {
+                    w[i] = al[idx[i]];
+                }
+                check_from_hand(&mut acc, &w);
+            }
+        }
+        rep.add_space("from_two..from_seven: all tuples over {2 cards, blank, 4 non-card words}", &acc, t0, "flagged card, single-bit corruption, 0xFFFFFFFF, 23");
+    }
+    // from_index
+    {
+        let t0 = Instant::now();
+        let toks = ["AS", "kh", "T♦", "0c", "XX", "A", "2♣zz", "AS"];
+        let seps = [" ", "\t\n", "\u{3000} "];
+        let mut acc = Acc::new(1);
+        let maxl = if thorough { 6 } else { 5 };
+        for len in 0..=maxl {
+            let total = (toks.len() as u64).pow(len as u32);
+            let mut idx = vec![0usize; len];
+            for t in 0..total {
+                tuple_decode(t, toks.len() as u64, &mut idx);
+                for (si, sep) in seps.iter().enumerate() {
+                    let mut s = String::new();
+                    if si == 2 {
+                        s.push_str(sep);
+                    }
+                    for (k, i) in idx.iter().enumerate() {
+                        if k > 0 {
+                            s.push_str(sep);
+                        }
+                        s.push_str(toks[*i]);
+                    }
+                    if si >= 1 {
+                        s.push_str(sep);
+                    }
+                    acc.cases += 1;
+                    acc.calls += 1;
+                    acc.nontrivial += 1;
+                    if let Verdict::Violated { .. } = judge(&Case::text("from_index", &s, &[])) {
+                        if let Some(v) = confirm(judge, Case::text("from_index", &s, &[])) {
+                            acc.violate(v);
+                        }
+                    }
+                }
+            }
+        }
+        rep.add_space(&format!("from_index: all token sequences of length 0..={} over 8 tokens x 3 separator styles", maxl), &acc, t0, "result = set of the distinct card tokens");
+    }
+    rep.rule = "graph states (sets over U) and edges; distinct 64-bit sets; distinct ordered hands / strings. Non-trivial = non-empty graph states, sets with overflow bits or empty, hands in which something must be dropped or merged".into();
+    rep.bound = "fold/peel histories of ANY length over a 12-bit universe (closed graph); all sets with <= 4 members and their complements over 64 bits; from_n: all tuples (n <= 4), all multisets (n >= 5) over S53; the remaining 2^64 sets are outside".into();
+    rep.assume("the state key is the complete observable content (the u64), so merged states have identical futures");
 }
